@@ -1408,6 +1408,23 @@ impl Gen {
                 let c = self.rng.below(self.sys.clients.len() as u64) as usize;
                 let p = self.next_pre[c];
                 self.next_pre[c] += 1;
+                if self.rng.chance(1, 4) {
+                    // … or for an entity the client already knows by name: it was referenced by a
+                    // replicated component a tick before it starts to replicate itself
+                    let x = self.next_ent;
+                    self.next_ent += 2;
+                    let v = self.v();
+                    self.step(format!("spawn {x} m=0 A={v}"));
+                    self.step(format!("spawn {} m=1 R={x}", x + 1));
+                    self.step("sframe tick=1".into());
+                    self.network(0);
+                    self.step(format!("cframe {c}"));
+                    self.network(0);
+                    self.step(format!("cspawn {c} {p}"));
+                    self.step(format!("map {c} {x} {p}"));
+                    self.step(format!("mark {x} 1"));
+                    return;
+                }
                 self.step(format!("cspawn {c} {p}"));
                 self.spawn(profile);
                 let e2 = self.next_ent - 1;
@@ -1628,6 +1645,11 @@ impl Gen {
                             self.step(format!("cframe {c}"));
                         }
                         self.step(format!("disconnect {c}"));
+                        if profile == "sys_evt" && self.rng.chance(1, 2) {
+                            // the game keeps sending before the client app has noticed the disconnect
+                            let id = self.v();
+                            self.step(format!("cev {c} ord {id}"));
+                        }
                         self.step("sframe tick=0".into());
                         self.step(format!("cframe {c}"));
                         if left_buffered.is_some() && self.rng.chance(1, 2) {
